@@ -483,6 +483,14 @@ def main(pid, run):
     ap.add_argument("--seed", type=int, default=int(os.environ.get("VERIF_SEED", "1") or 1))
     ap.add_argument("--replay", default=None)
     a = ap.parse_args(sys.argv[2:] if len(sys.argv) > 1 and sys.argv[1] == pid else sys.argv[1:])
+    if a.replay and os.path.exists(a.replay):
+        # a replay file records the seed and tier of the run that wrote it: the checks are deterministic in (tree, seed, tier),
+        # so re-running with them reproduces the recorded violation (checks that support it replay the single behaviour)
+        try:
+            rp = json.load(open(a.replay))
+            a.seed, a.tier = int(rp.get("seed", a.seed)), rp.get("tier", a.tier)
+        except Exception:
+            pass
     ctx = Ctx(pid, a.tier, a.seed)
     ctx.replay = a.replay
     try:
